@@ -758,7 +758,14 @@ def decorate_with_checker(func: CallableT) -> CallableT:
                 # Ideally, we would catch any exception here and strip the checkers from the traceback.
                 # Unfortunately, this can not be done in Python 3, see
                 # https://stackoverflow.com/questions/44813333/how-can-i-elide-a-function-wrapper-from-the-traceback-in-python-3
-                result = await func(*args, **kwargs)
+                #
+                # The contracts are not being checked while the function itself runs. Release the marker so that
+                # the calls which the function makes to itself (*e.g.*, recursion) are checked as any other call.
+                in_progress.discard(id_func)
+                try:
+                    result = await func(*args, **kwargs)
+                finally:
+                    in_progress.add(id_func)
 
                 if postconditions:
                     resolved_kwargs["result"] = result
@@ -836,7 +843,14 @@ def decorate_with_checker(func: CallableT) -> CallableT:
                 # Ideally, we would catch any exception here and strip the checkers from the traceback.
                 # Unfortunately, this can not be done in Python 3, see
                 # https://stackoverflow.com/questions/44813333/how-can-i-elide-a-function-wrapper-from-the-traceback-in-python-3
-                result = func(*args, **kwargs)
+                #
+                # The contracts are not being checked while the function itself runs. Release the marker so that
+                # the calls which the function makes to itself (*e.g.*, recursion) are checked as any other call.
+                in_progress.discard(id_func)
+                try:
+                    result = func(*args, **kwargs)
+                finally:
+                    in_progress.add(id_func)
 
                 if postconditions:
                     resolved_kwargs["result"] = result
